@@ -128,7 +128,7 @@ func (g *SentenceGen) Random(r *rand.Rand, target int) []int {
 			}
 			pi = usable[r.Intn(len(usable))]
 			// far from the target: prefer alternatives that keep the derivation going
-			if len(growing) > 0 && target > 30 && len(out) < target/2 && r.Intn(10) < 8 {
+			if len(growing) > 0 && target > 30 && len(out) < target/2 && r.Intn(100) < 97 {
 				pi = growing[r.Intn(len(growing))]
 			}
 		}
